@@ -971,6 +971,11 @@ def run(chk):
     from props._c01_kernel import run_kernel_correspondence
     run_kernel_correspondence(chk)
 
+    # tie to the source by regeneration: the listed definitions are re-translated from /repo by py2coq on
+    # every run and PROVED equal to the hand models (coq/props/TIE.v), plus a translator self-check
+    from props._tie import run_tie
+    run_tie(chk, ['exhaust', 'context', 'desugar'])
+
 
 def replay(chk, payload):
     inp = payload.get("input") or {}
